@@ -21,13 +21,37 @@
 using namespace datasketches;
 namespace vf {
 
-typedef var_opt_sketch<uint64_t> VO;
-typedef var_opt_union<uint64_t> VU;
+// Item type: ids as uint64_t (unit c16_varopt) or as heap-allocated strings (unit c16_varopt_str,
+// -DC16_STRING_ITEMS: the same workloads with a non-trivial item type, so that construction /
+// destruction bookkeeping of the sample slots is exercised under ASan+LSan as well).
+#ifdef C16_STRING_ITEMS
+typedef std::string Item;
+static const char ITEM_PREFIX[] = "item-with-a-long-heap-allocated-prefix-";
+static Item mk(uint64_t id) { return std::string(ITEM_PREFIX) + std::to_string(id); }
+static uint64_t id_of(const Item& it) {
+  const size_t pl = sizeof(ITEM_PREFIX) - 1;
+  if (it.size() <= pl || it.compare(0, pl, ITEM_PREFIX) != 0) return UINT64_MAX;
+  uint64_t v = 0;
+  for (size_t i = pl; i < it.size(); ++i) { if (it[i] < '0' || it[i] > '9') return UINT64_MAX; v = v * 10 + static_cast<uint64_t>(it[i] - '0'); }
+  return v;
+}
+#else
+typedef uint64_t Item;
+static Item mk(uint64_t id) { return id; }
+static uint64_t id_of(const Item& it) { return it; }
+#endif
+typedef var_opt_sketch<Item> VO;
+typedef var_opt_union<Item> VU;
 
 const char* property_id() { return "C16"; }
 unsigned case_timeout_s() { return 300; }
+#ifdef C16_STRING_ITEMS
+static const uint64_t NSTAT_QUICK = 2, NSTAT_THOROUGH = 4;
+uint64_t num_cases(bool thorough) { return thorough ? NSTAT_THOROUGH + 40000 : NSTAT_QUICK + 1500; }
+#else
 static const uint64_t NSTAT_QUICK = 10, NSTAT_THOROUGH = 20;
-uint64_t num_cases(bool thorough) { return thorough ? NSTAT_THOROUGH + 200000 : NSTAT_QUICK + 12000; }
+uint64_t num_cases(bool thorough) { return thorough ? NSTAT_THOROUGH + 200000 : NSTAT_QUICK + 6000; }
+#endif
 void final_report() {}
 
 static const double REL = 1e-9;
@@ -134,9 +158,9 @@ struct ReadOut {
   long double sum = 0;
 };
 
-static bool pred_always(uint64_t) { return true; }
-static bool pred_never(uint64_t) { return false; }
-static bool pred_odd(uint64_t v) { return (v & 1) != 0; }
+static bool pred_always(const Item&) { return true; }
+static bool pred_never(const Item&) { return false; }
+static bool pred_odd(const Item& v) { return (id_of(v) & 1) != 0; }
 
 // subset-sum clauses shared by stream sketches and union results
 static void check_subset_sums(const VO& s, const std::string& fam, long double total, bool exact_arith, const ReadOut& ro,
@@ -175,7 +199,7 @@ static ReadOut read_out(const VO& s) {
   ReadOut ro;
   for (auto it = s.begin(); it != s.end(); ++it) {
     const auto p = *it;
-    ro.items.emplace_back(p.first, p.second);
+    ro.items.emplace_back(id_of(p.first), p.second);
     ro.sum += p.second;
   }
   return ro;
@@ -292,12 +316,12 @@ static bool feed_stream(Rng& r, std::unique_ptr<VO>& sk, SkModel& m, const Feed&
       const uint64_t op = r.below(10);
       if (op < 3) {            // zero weight: documented as ignored
         const uint64_t id = new_id(0.0);
-        try { sk->update(id, r.coin() ? 0.0 : -0.0); } catch (const std::exception& e) { checked(); fail("sketch|update|zero-weight-throws", e.what()); }
+        try { sk->update(mk(id), r.coin() ? 0.0 : -0.0); } catch (const std::exception& e) { checked(); fail("sketch|update|zero-weight-throws", e.what()); }
         count("zero_weight_updates"); what = "zero-weight update"; observe_now = true;
       } else if (op < 6) {     // invalid weights must throw and leave the sketch unchanged
         const double bad = r.pick({-1.0, -1e-300, std::numeric_limits<double>::quiet_NaN(), inf, -inf});
         const uint64_t id = new_id(0.0);
-        VF_CHECK(throws([&] { sk->update(id, bad); }), "sketch|update|invalid-weight-accepted", "weight=" + str(bad));
+        VF_CHECK(throws([&] { sk->update(mk(id), bad); }), "sketch|update|invalid-weight-accepted", "weight=" + str(bad));
         count("invalid_weight_probes"); what = "rejected update"; observe_now = true;
       } else if (op < 8) {
         try { std::unique_ptr<VO> t(new VO(round_trip(*sk, r, "sketch"))); sk = std::move(t); }
@@ -326,7 +350,7 @@ static bool feed_stream(Rng& r, std::unique_ptr<VO>& sk, SkModel& m, const Feed&
     if (!(w > 0) || !std::isfinite(w)) continue;
     const uint64_t id = new_id(w);
     try {
-      if (r.coin()) sk->update(id, w); else { uint64_t tmp = id; sk->update(std::move(tmp), w); }
+      if (r.coin()) { const Item it = mk(id); sk->update(it, w); } else { Item tmp = mk(id); sk->update(std::move(tmp), w); }
     } catch (const std::exception& e) {
       checked();
       fail("sketch|update|throws-on-valid-weight", "k=" + std::to_string(m.k) + " n-before=" + std::to_string(m.n) + " kind=" + kind_name(f.kind) + " w=" + str(w) + " tau=" + str(tau) + " what=" + e.what());
@@ -464,6 +488,15 @@ static bool check_union_result(const VU& u, const UModel& um, const char* after,
     if (adj_scratch[id] >= 0) { checked(); fail(fam + "|result|duplicate-sample", ctx() + " id=" + std::to_string(id)); ok = false; continue; }
     adj_scratch[id] = p.second; touched.push_back(id);
     VF_CHECK(p.second > 0 && std::isfinite(p.second), fam + "|result|adjusted-weight-not-positive-finite", ctx() + " id=" + std::to_string(id) + " adj=" + str(p.second));
+  }
+  if (ok) {
+    // the result is a VarOpt sample: every adjusted weight is the item's exact input weight or the one common threshold
+    std::vector<double> others;
+    for (uint64_t id : touched) if (adj_scratch[id] != W[id]) others.push_back(adj_scratch[id]);
+    std::sort(others.begin(), others.end());
+    others.erase(std::unique(others.begin(), others.end()), others.end());
+    VF_CHECK(others.size() <= 1, fam + "|result|adjusted-weight-neither-input-weight-nor-common-threshold",
+             ctx() + " distinct-non-input-values=" + std::to_string(others.size()) + " first=" + str(others.empty() ? 0.0 : others[0]) + " second=" + str(others.size() > 1 ? others[1] : 0.0));
   }
   for (uint64_t id : touched) adj_scratch[id] = -1.0;
   if (ok) VF_CHECK(close_rel(ro.sum, um.total, REL), fam + "|result|total-weight-not-preserved", ctx() + " sum=" + str(static_cast<double>(ro.sum)) + " total=" + str(static_cast<double>(um.total)) + " size=" + std::to_string(ro.items.size()));
@@ -617,7 +650,7 @@ static void union_case(Rng& r) {
         const double w = g.next(r, i, 0, 0);
         if (!(w > 0) || !std::isfinite(w)) continue;
         const uint64_t id = new_id(w);
-        try { last_result.update(id, w); } catch (const std::exception& e) { checked(); fail("union|result|continued-update-throws", d + " w=" + str(w) + " what=" + e.what()); return; }
+        try { last_result.update(mk(id), w); } catch (const std::exception& e) { checked(); fail("union|result|continued-update-throws", d + " w=" + str(w) + " what=" + e.what()); return; }
         ++n2; tot2 += w;
       }
       ReadOut ro = read_out(last_result);
@@ -647,7 +680,11 @@ static const Cell CELLS[] = {
 
 static void stat_cell(uint64_t idx, Rng& r) {
   const bool T = G().thorough();
+#ifdef C16_STRING_ITEMS
+  const Cell& c = CELLS[(idx + 4) % (sizeof CELLS / sizeof CELLS[0])];   // the string unit starts with the union cells
+#else
   const Cell& c = CELLS[idx % (sizeof CELLS / sizeof CELLS[0])];
+#endif
   const uint64_t trials = T ? 20000 : 1500;
   describe("unbiasedness cell " + std::to_string(idx) + " n=" + std::to_string(c.n) + " k=" + std::to_string(c.k) + " kind=" + kind_name(c.kind) + " split=" + std::to_string(c.split) + " max_k=" + std::to_string(c.max_k) + " trials=" + std::to_string(trials));
   // the stream is a fixed function of the cell index (not of VERIF_SEED); the trial seeds come from r
@@ -663,13 +700,13 @@ static void stat_cell(uint64_t idx, Rng& r) {
     double est, est_all;
     if (c.split == 0) {
       VO s(c.k);
-      for (int i = 0; i < c.n; ++i) s.update(static_cast<uint64_t>(i), w[i]);
+      for (int i = 0; i < c.n; ++i) s.update(mk(static_cast<uint64_t>(i)), w[i]);
       est = s.estimate_subset_sum(pred_odd).estimate;
       est_all = s.estimate_subset_sum(pred_always).estimate;
     } else {
       std::vector<VO> sks;
       for (int j = 0; j < c.split; ++j) sks.emplace_back(c.k + 3 * j);
-      for (int i = 0; i < c.n; ++i) sks[(i / 3) % c.split].update(static_cast<uint64_t>(i), w[i]);
+      for (int i = 0; i < c.n; ++i) sks[(i / 3) % c.split].update(mk(static_cast<uint64_t>(i)), w[i]);
       VU u(c.max_k);
       for (int j = 0; j < c.split; ++j) u.update(sks[(j + t) % c.split]);
       VO s = u.get_result();
